@@ -1610,10 +1610,34 @@ R"(
         return res;
     }
 
-    std::string make_visit_children(const sbe::level_members& members) const
+    std::string make_visit_children(
+        const sbe::level_members& members,
+        const std::optional<std::size_t> message_header_size = {}) const
     {
         std::string res;
         auto member_visit_calls = make_member_visit_calls(members);
+        if(member_visit_calls.empty() && message_header_size)
+        {
+            // message has no members which move the cursor (constant fields
+            // have no cursor accessors), advance it to the end of the block
+            // here. For entries it's done by their cursor constructor.
+            return fmt::format(
+                // clang-format off
+R"(
+    template<typename Visitor, typename Cursor>
+    SBEPP_CPP14_CONSTEXPR bool operator()(
+        ::sbepp::detail::visit_children_tag, Visitor& v, Cursor& c) const
+    {{
+        c.pointer() = (*this)(::sbepp::detail::addressof_tag{{}})
+            + {header_size}
+            + (*this)(::sbepp::detail::get_block_length_tag{{}});
+        return false;
+    }}
+)",
+                // clang-format on
+                fmt::arg("header_size", *message_header_size));
+        }
+
         if(member_visit_calls.empty())
         {
             member_visit_calls.emplace_back("false");
@@ -1671,7 +1695,8 @@ R"(
             is_flat_level(m.members),
             get_last_member(m.members),
             header_context.size);
-        const auto visit_children_impl = make_visit_children(m.members);
+        const auto visit_children_impl =
+            make_visit_children(m.members, header_context.size);
 
         // it's not possible to make `operator()(visit_tag)` `constexpr` because
         // C++11 doesn't allow such function to return `void`
